@@ -250,23 +250,44 @@ def check(ctx):
     st = f"{JB}:get_next_job_number"
     cfg = CFG(gn)
     loops = [n for n in cfg.nodes if n.kind == "while"]
-    if len(loops) != 1:
-        raise AnalysisError(f"{st}: expected exactly one while loop")
-    w = loops[0]
-    test = w.ast.test
-    var = unparse(test.left) if isinstance(test, ast.Compare) and isinstance(test.ops[0], ast.In) else None
-    ok = var is not None and _struct_of(test.comparators[0], set(), set()) == "J"
-    ctx.ob("R3", st, f"the scan loops while the candidate number is in the job dict (`{short(test)}`)", ok, key="alloc|loop-test", where=loc(w.ast))
     purge = [n for n in cfg.nodes if n.kind == "stmt" and any(call_name(c) == "_clear_dead_jobs" for c in calls_in(n.ast))]
-    ctx.ob("R3", st, "dead jobs are purged before the scan", bool(purge) and cfg.dominated(w, lambda m_: m_ in purge), key="alloc|no-purge", where=loc(gn))
     defs = df.all_defs(gn)
-    ds = defs.get(var or "", [])
-    init = [d for d in ds if d.kind == "assign"]
-    step = [d for d in ds if d.kind == "aug"]
-    ok = len(init) == 1 and const_value(init[0].value) == 1 and len(step) == 1 and isinstance(step[0].stmt.op, ast.Add) and const_value(step[0].value) == 1 and len(ds) == 2
-    ctx.ob("R3", st, "the scan starts at 1 and advances by 1 (lowest free number)", ok, key="alloc|start-step", where=loc(gn))
     rets = [n for n in walk_local(gn) if isinstance(n, ast.Return)]
-    ctx.ob("R3", st, "the scanned number is returned", len(rets) == 1 and unparse(rets[0].value) == var, key="alloc|return", where=loc(gn))
+
+    def is_jobs(e):
+        return _struct_of(df.resolve_copy(defs, e), set(), set()) == "J" or _struct_of(e, set(), set()) == "J"
+
+    gens = [r.value.args[0] for r in rets if isinstance(r.value, ast.Call) and call_name(r.value) == "next" and r.value.args and isinstance(r.value.args[0], ast.GeneratorExp)]
+    if len(loops) == 1:
+        # idiom A: i = 1; while i in jobs: i += 1; return i
+        w = loops[0]
+        test = w.ast.test
+        var = unparse(test.left) if isinstance(test, ast.Compare) and isinstance(test.ops[0], ast.In) else None
+        ok = var is not None and is_jobs(test.comparators[0])
+        ctx.ob("R3", st, f"the scan loops while the candidate number is in the job dict (`{short(test)}`)", ok, key="alloc|loop-test", where=loc(w.ast))
+        ctx.ob("R3", st, "dead jobs are purged before the scan", bool(purge) and cfg.dominated(w, lambda m_: m_ in purge), key="alloc|no-purge", where=loc(gn))
+        ds = defs.get(var or "", [])
+        init = [d for d in ds if d.kind == "assign"]
+        step = [d for d in ds if d.kind == "aug"]
+        ok = len(init) == 1 and const_value(init[0].value) == 1 and len(step) == 1 and isinstance(step[0].stmt.op, ast.Add) and const_value(step[0].value) == 1 and len(ds) == 2
+        ctx.ob("R3", st, "the scan starts at 1 and advances by 1 (lowest free number)", ok, key="alloc|start-step", where=loc(gn))
+        ctx.ob("R3", st, "the scanned number is returned", len(rets) == 1 and unparse(rets[0].value) == var, key="alloc|return", where=loc(gn))
+    elif not loops and len(gens) == 1 and len(rets) == 1:
+        # idiom B: return next(n for n in itertools.count(1) if n not in jobs)
+        g = gens[0]
+        gen = g.generators[0] if len(g.generators) == 1 else None
+        tgt = gen.target.id if gen is not None and isinstance(gen.target, ast.Name) else None
+        cond = gen.ifs[0] if gen is not None and len(gen.ifs) == 1 else None
+        ok = tgt is not None and isinstance(cond, ast.Compare) and isinstance(cond.ops[0], ast.NotIn) and unparse(cond.left) == tgt and is_jobs(cond.comparators[0])
+        ctx.ob("R3", st, f"the scan skips exactly the numbers that are in the job dict (`{short(cond) if cond is not None else None}`)", ok, key="alloc|loop-test", where=loc(g))
+        rn = cfg.nodes_of(rets[0])
+        ctx.ob("R3", st, "dead jobs are purged before the scan", bool(purge) and all(cfg.dominated(x, lambda m_: m_ in purge) for x in rn), key="alloc|no-purge", where=loc(gn))
+        it = gen.iter if gen is not None else None
+        ok = isinstance(it, ast.Call) and call_name(it) in ("itertools.count", "count") and [const_value(a_) for a_ in it.args] in ([1], [1, 1]) and not it.keywords
+        ctx.ob("R3", st, "the scan starts at 1 and advances by 1 (lowest free number)", ok, key="alloc|start-step", where=loc(gn))
+        ctx.ob("R3", st, "the scanned number is returned", tgt is not None and unparse(g.elt) == tgt, key="alloc|return", where=loc(gn))
+    else:
+        raise AnalysisError(f"{st}: neither `while n in jobs: n += 1` nor `next(n for n in count(1) if n not in jobs)`")
     aj = mod.func("add_job")
     adefs = df.all_defs(aj)
     ms = mutations(aj)
